@@ -362,55 +362,63 @@ for cls, mod in (('Socket', 'socket'), ('AsyncSocket', 'async_socket')):
 WS_MOD = SOCK_MOD + ['self.upgrading', 'self.upgraded', 'self.connected', 'ghost.ws_log',
                      'ghost.received', 'Packet.encode_cache']
 HS_PRE = 'not self.upgrading and implies(self.connected, not self.upgraded)'
-c = REG.contract('socket.Socket._websocket_handler', props=['C03', 'C04', 'C05', 'C06', 'C14'])
-c.param('self', Ref('Socket')).param('ws', Opaque('WS'))
-c.returns(QI)
-c.shards = 6
-c.requires(SOCK_WF, 'socket-wf')
-c.requires(HS_PRE, 'one-upgrade-at-a-time')
-c.requires('not self.closed', 'session-open')
-c.requires('self.server.max_http_buffer_size >= 0', 'limit-nonneg')
-c.abstract("for attr in ['_sock', 'socket']:",
-           'socket time-out tuning on driver-internal attributes; touches no modelled state')
-# C14: a frame handed to the packet decoder (and from there to receive / the handlers) is never
-# longer than the limit (a frame of exactly the limit passes)
-c.check_before('pkt = packet.Packet(encoded_packet=p)', 'frame-within-limit',
-               'len(p) <= self.server.max_http_buffer_size', props=['C14'])
-# C05: after the disconnect event no frame is read any more (so none can produce an event)
-c.check_before('try: p = websocket_wait()', 'reads-only-while-open', 'not self.closed',
-               props=['C05'])
-c.may_raise('Exception', 'True', label='driver-or-frame-error', ensures=[
-    ('events-only-grow', 'grows(events, old(events))'),
-    ('spawned-only-grow', 'grows(spawned, old(spawned))'),
-    ('queue-wf', 'self.queue.unf >= len(self.queue.items)'),
-    ('failed-upgrade-consumes-nothing',
-     'implies(not self.upgraded, self.queue.taken == old(self.queue.taken))')], props=['C06'])
-c.ensures('flag-reset', 'not self.upgrading', props=['C06'])
-c.ensures('events-only-grow', 'grows(events, old(events))')
-c.ensures('spawned-only-grow', 'grows(spawned, old(spawned))')
-c.ensures('queue-wf', 'self.queue.unf >= len(self.queue.items)')
-c.ensures('upgrade-only-via-probe', 'implies(old(self.connected) and self.upgraded, '
-          'handshake_frames(ws_log, len(old(ws_log))))', props=['C06'])
-c.ensures('failed-upgrade-harmless', 'implies(old(self.connected) and not self.upgraded, '
-          'self.queue.taken == old(self.queue.taken) and '
-          'self.queue.items[0:len(old(self.queue.items))] == old(self.queue.items) and '
-          'self.closing == old(self.closing) and self.closed == old(self.closed) and '
-          'events == old(events) and hresults == old(hresults))', props=['C06', 'C03'])
-c.ensures('direct-websocket-mode', 'implies(not old(self.connected), self.connected and '
-          'self.upgraded)', props=['C06'])
-c.ensures('ends-closed', 'implies(self.upgraded, self.closing)', props=['C05'])
-c.ensures('result-empty', 'result == []')
-c.modifies(*WS_MOD)
-c.loop(1, invariants=[
-    ('steady-state', 'self.upgraded and not self.upgrading and self.connected'),
-    ('events-only-grow', 'grows(events, old(events))'),
-    ('spawned-only-grow', 'grows(spawned, old(spawned))'),
-    ('queue-wf', 'self.queue.unf >= len(self.queue.items)'),
-    ('handshake-record', 'implies(old(self.connected), '
-     'handshake_frames(ws_log, len(old(ws_log))))'),
-    ('taken-unchanged', 'self.queue.taken == old(self.queue.taken)')],
-    modifies=['p', 'pkt', 'new Packet.binary', 'new Packet.packet_type', 'new Packet.data'] +
-    WS_MOD, summarize=True)
+for _cls, _mod in (('Socket', 'socket'), ('AsyncSocket', 'async_socket')):
+    c = REG.contract('%s.%s._websocket_handler' % (_mod, _cls), props=['C03', 'C04', 'C05', 'C06', 'C14'])
+    c.param('self', Ref(_cls)).param('ws', Opaque('WS'))
+    if _cls == 'Socket':
+        c.returns(QI)
+    c.shards = 6
+    c.requires(SOCK_WF, 'socket-wf')
+    c.requires(HS_PRE, 'one-upgrade-at-a-time')
+    c.requires('not self.closed', 'session-open')
+    c.requires('self.server.max_http_buffer_size >= 0', 'limit-nonneg')
+    if _cls == 'Socket':
+        c.abstract("for attr in ['_sock', 'socket']:",
+                   'socket time-out tuning on driver-internal attributes; touches no modelled state')
+    # C14: a frame handed to the packet decoder (and from there to receive / the handlers) is never
+    # longer than the limit (a frame of exactly the limit passes)
+    c.check_before('pkt = packet.Packet(encoded_packet=p)', 'frame-within-limit',
+                   'len(p) <= self.server.max_http_buffer_size', props=['C14'])
+    # C05: after the disconnect event no frame is read any more (so none can produce an event)
+    c.check_before('try: p = websocket_wait()' if _cls == 'Socket' else
+                   'wait_task = asyncio.ensure_future(websocket_wait())',
+                   'reads-only-while-open', 'not self.closed', props=['C05'])
+    c.may_raise('Exception', 'True', label='driver-or-frame-error', ensures=[
+        ('events-only-grow', 'grows(events, old(events))'),
+        ('spawned-only-grow', 'grows(spawned, old(spawned))'),
+        ('queue-wf', 'self.queue.unf >= len(self.queue.items)'),
+        ('failed-upgrade-consumes-nothing',
+         'implies(not self.upgraded, self.queue.taken == old(self.queue.taken))')], props=['C06'])
+    if _cls == 'Socket':
+        # (the asyncio handler returns on a driver error during the probe without resetting the
+        # flag; its only caller _upgrade_websocket resets it in a finally clause)
+        c.ensures('flag-reset', 'not self.upgrading', props=['C06'])
+    c.ensures('events-only-grow', 'grows(events, old(events))')
+    c.ensures('spawned-only-grow', 'grows(spawned, old(spawned))')
+    c.ensures('queue-wf', 'self.queue.unf >= len(self.queue.items)')
+    c.ensures('upgrade-only-via-probe', 'implies(old(self.connected) and self.upgraded, '
+              'handshake_frames(ws_log, len(old(ws_log))))', props=['C06'])
+    c.ensures('failed-upgrade-harmless', 'implies(old(self.connected) and not self.upgraded, '
+              'self.queue.taken == old(self.queue.taken) and '
+              'self.queue.items[0:len(old(self.queue.items))] == old(self.queue.items) and '
+              'self.closing == old(self.closing) and self.closed == old(self.closed) and '
+              'events == old(events) and hresults == old(hresults))', props=['C06', 'C03'])
+    c.ensures('direct-websocket-mode', 'implies(not old(self.connected), self.connected and '
+              'self.upgraded)', props=['C06'])
+    c.ensures('ends-closed', 'implies(self.upgraded, self.closing)', props=['C05'])
+    if _cls == 'Socket':
+        c.ensures('result-empty', 'result == []')
+    c.modifies(*WS_MOD)
+    c.loop(1 if _cls == 'Socket' else 0, invariants=[
+        ('steady-state', 'self.upgraded and not self.upgrading and self.connected'),
+        ('events-only-grow', 'grows(events, old(events))'),
+        ('spawned-only-grow', 'grows(spawned, old(spawned))'),
+        ('queue-wf', 'self.queue.unf >= len(self.queue.items)'),
+        ('handshake-record', 'implies(old(self.connected), '
+         'handshake_frames(ws_log, len(old(ws_log))))'),
+        ('taken-unchanged', 'self.queue.taken == old(self.queue.taken)')],
+        modifies=['p', 'pkt', 'new Packet.binary', 'new Packet.packet_type', 'new Packet.data'] +
+        WS_MOD, summarize=True)
 
 # -------------------------------------------------------------------------- _upgrade_websocket
 from .schemas import RESP  # noqa: E402
